@@ -11,10 +11,10 @@ from xh import langs, mb
 from xh.h_c09 import L_MINI
 
 PROP = 'C10'
-DSTAT = [None, 0.0, 0.5, 1.0]
+DSTAT = [None, 0.0, 0.5, 1.0, 0.125]
 ESTAT = [None, True, False]
 TAGS = [[], ['x'], ['x', 'y z']]
-EXTRAS = [{}, {'k': 'v', 'n': {'deep': [1, 'two']}}]
+EXTRAS = [{}, {'k': 'v', 'n': {'deep': [1, 'two']}}, {'none': None, 'zero': 0, 'f': False}]
 TTCS = [None, {'type': 'function', 'name': 'Exponential', 'arguments': [0.1]}]
 MITRE = [None, 'T1059']
 FMT = ['json', 'yml', 'yaml']
@@ -199,7 +199,7 @@ def body_model(cube, **kw):
 
 
 def queries(tier):
-    picks = [I('ds', 0, 3), I('es', 0, 2), I('tg', 0, 2), I('ex', 0, 1), I('tt', 0, 1), I('mi', 0, 1)]
+    picks = [I('ds', 0, 4), I('es', 0, 2), I('tg', 0, 2), I('ex', 0, 2), I('tt', 0, 1), I('mi', 0, 1)]
     nondef = '(ds == 0) + (es == 0) + (tg == 0) + (ex == 0) + (tt == 0) + (mi == 0)'
     if tier == 'quick':
         n = 2
@@ -210,15 +210,14 @@ def queries(tier):
         cap = 1
     else:
         n = 3
-        ps = [I('fmt', 0, 2), B('same'), B('pr')] + picks + [I('ida', 0, 2), B('v0'), B('c0'), B('v1'), B('ra0'), B('ra1'),
-                                                               B('e01'), B('e12')]
+        ps = [I('fmt', 0, 2), B('same'), B('pr')] + picks + [I('ida', 0, 2), B('v0'), B('c0'), B('ra0'), B('ra1'), B('e01')]
         pre = [nondef + ' >= 4']
-        cube = {'n': n, 'edges': ['e20', 'e11']}
+        cube = {'n': n, 'edges': ['e20', 'e11', 'e12']}
         timeout = 1700
         cap = 2
     w = {p.name: (1 if p.typ == 'int' else True) for p in ps}
     w.update({'same': False, 'ds': 0, 'es': 0, 'ex': 0, 'tt': 0})
-    qs = [Query(name='rt', body=body_rt, params=ps, cubes=[cube], split=['fmt', 'same', 'pr'], pre=pre,
+    qs = [Query(name='rt', body=body_rt, params=ps, cubes=[cube], split=['fmt', 'same', 'pr'] + (['ida'] if tier != 'quick' else []), pre=pre,
                 timeout=timeout, witnesses=[(cube, w)],
                 bound='%d hand-built nodes: node 0 with attribute picks (defense %s, existence %s, tags %s, extras, ttc, mitre; at most %d non-default '
                       'families at once), symbolic viability/necessity flags, edges %s plus symbolic ones, two attackers (same/different name, ids '
